@@ -56,6 +56,8 @@ def gen_cases(tier, seed):
                 "sub": int(rng.integers(1 << 31)),
             }
         )
+    for i in range(6 if tier == "quick" else 60):
+        cases.append({"method": "and" if i % 2 else "or", "alpha": float(10 ** rng.uniform(-2.3, -0.8)), "deg_step": float(rng.choice([5, 10, 15])), "allowed_error": 0.05, "n": None, "round": None, "zeros": "none", "thetas": None, "sub": int(rng.integers(1 << 31))})
     return cases
 
 
@@ -67,6 +69,36 @@ def run_case(case, ctx):
     model = S.build_virocon(spec)
     ref = S.RefModel(spec)
     n = case["n"]
+    if n is None:
+        # no sample supplied: the contour draws n = int(100/alpha) points itself (observed through the model's draw_sample)
+        from virocon import AndContour, OrContour
+
+        alpha, ds, ae, method = case["alpha"], case["deg_step"], case["allowed_error"], case["method"]
+        ctx.cls("method", method)
+        ctx.cls("zeros", "drawn-by-contour")
+        ctx.sig = f"{method}|drawn|{case['sub']}|{alpha:.5g}"
+        RAYS.clear()
+        with warnings.catch_warnings():
+            warnings.simplefilter("ignore")
+            try:
+                con = (AndContour if method == "and" else OrContour)(model, alpha, deg_step=ds, allowed_error=ae)
+            except IndexError:
+                ctx.count("c04.or-all-points-dropped-no-contour")
+                return
+        smp = np.asarray(con.sample, float)
+        ctx.check("c04.sample-size", smp.shape == (int(100 / alpha), 2), f"{method}: no sample supplied - the number of points drawn is not int(100/alpha)", got=list(smp.shape), want=int(100 / alpha))
+        rays = [d for nm, d in RAYS if nm == f"{method}_ray"]
+        ctx.count("c04.probe-rays", len(rays))
+        x, y = smp[:, 0], smp[:, 1]
+        for r in rays:
+            px, py = float(r["x"]), float(r["y"])
+            pe = float(np.mean((x > px) & (y > py))) if method == "and" else float(np.mean((x > px) | (y > py)))
+            ctx.check("c04.reported-pe", abs(pe - float(r["pe"])) <= 1e-12, f"{method}: the exceedance fraction used by the search is not the exceedance of the drawn sample", theta=float(r["theta"]), recomputed=pe, used=float(r["pe"]))
+            if r["iterations"] < r["max_iterations"]:
+                ctx.check("c04.precision", abs(pe - alpha) / alpha <= ae * (1 + 1e-12), f"{method}: exceedance of a searched point differs from alpha by more than allowed_error*alpha (drawn sample)", theta=float(r["theta"]), pe=pe, alpha=alpha)
+        ctx.nontrivial = bool(rays)
+        ctx.sample = {"method": method, "alpha": alpha, "n_drawn": int(len(smp)), "n_rays": len(rays)}
+        return
     sample = ref.sample(n, rng)
     sample = np.abs(sample[np.all(np.isfinite(sample), axis=1)])
     if case["round"] is not None:
